@@ -119,6 +119,8 @@ type Obligation struct {
 	Extra  []*smt.Term
 	Cands  []*smt.Term // candidate index terms for instantiation
 	InFunc string      // function whose body produced the obligation (inlined callee)
+	InKey  string      // contract key of that function
+	ResSeqs map[int]*SeqV // post obligations: contents of byte-slice results at the return (for replays)
 	Results []Value    // result values at the return site (post obligations)
 	Recs    []*CallRec // ghost trace at the point of the obligation (replay of scripted interfaces)
 }
@@ -160,6 +162,8 @@ type Exec struct {
 	Inlined map[string]bool
 	Callees map[string]bool // contracted callees used
 	fnName  string
+	axVars  map[string]*smt.Term // canonical bound variables of closed axioms
+	axDone  map[int]bool
 	localNames map[string]int
 	seqNames   []seqName
 	extMemo    map[[2]int][2]*smt.Term
@@ -167,6 +171,9 @@ type Exec struct {
 	macroEqs   []macroEq
 	FrameSites int // write sites examined by the frame check
 	RevealAll  bool // unfold every opaque predicate (used to obtain faithful counterexamples)
+	// ReplayInline > 0: contracted repo callees are inlined to this depth
+	// (counterexample search for replays only, never for proofs)
+	ReplayInline int
 	SmallLen   uint64 // when non-zero: every pre-existing slice has at most this capacity (replay search)
 	curRecBase map[string]int
 	funcsMemo  map[*ssa.Function]bool
@@ -844,7 +851,7 @@ func (e *Exec) oblige(st *State, kind, label string, goal *smt.Term, pos token.P
 		return
 	}
 	if e.dry == 0 {
-		o := &Obligation{Func: e.fnName, Kind: kind, Label: label, Guard: st.guard, Goal: goal, Facts: st.facts, InFunc: e.curFn().String(), Recs: st.recs}
+		o := &Obligation{Func: e.fnName, Kind: kind, Label: label, Guard: st.guard, Goal: goal, Facts: st.facts, InFunc: e.curFn().String(), InKey: funcKey(e.curFn()), Recs: st.recs}
 		if pos.IsValid() {
 			o.Pos = e.Prog.Fset.Position(pos)
 		}
@@ -1029,8 +1036,32 @@ func (e *Exec) addAxioms(ts ...*smt.Term) {
 		}
 		walk(t)
 		if len(vars) > 0 {
-			t = e.C.Forall(vars, t)
+			// the same fact is met under many quantifiers (each with its own bound
+			// variable): closed over canonical variables it is one axiom
+			if e.axVars == nil {
+				e.axVars = map[string]*smt.Term{}
+			}
+			m := map[*smt.Term]*smt.Term{}
+			var cvs []*smt.Term
+			for i, v := range vars {
+				k := fmt.Sprintf("%d|%s", i, v.Sort.String())
+				cv, ok := e.axVars[k]
+				if !ok {
+					cv = e.C.BoundVar(fmt.Sprintf("ax%d", i), v.Sort)
+					e.axVars[k] = cv
+				}
+				m[v] = cv
+				cvs = append(cvs, cv)
+			}
+			t = e.C.Forall(cvs, e.C.Subst(t, m))
 		}
+		if e.axDone == nil {
+			e.axDone = map[int]bool{}
+		}
+		if e.axDone[t.ID] {
+			continue
+		}
+		e.axDone[t.ID] = true
 		e.Axioms = append(e.Axioms, t)
 	}
 }
